@@ -62,6 +62,11 @@ func main() {
 			}
 			return safely(func() string { return f(args) })
 		})
+	case "conc":
+		fs := flag.NewFlagSet("conc", flag.ExitOnError)
+		g := fs.Int("g", 64, "goroutines")
+		fs.Parse(os.Args[2:])
+		concMain(*g)
 	case "oracle":
 		if len(os.Args) < 3 {
 			os.Exit(2)
